@@ -9,6 +9,7 @@ Known finding `C08-placeholders`: inside a content line the reader's %XX placeho
 backslash pairs / literal %2C.. sequences; tolerated only when the observation equals the defect model's prediction.
 """
 import itertools
+import os
 
 from mc import env  # noqa: F401
 from mc.refmodel import rfc_text as R
@@ -22,6 +23,7 @@ NAMES = ("X-P", "x-p", "Cn", "ALTREP", "a.b-1")
 PAIRS = (("X-P", "Cn"), ("ALTREP", "a.b-1"), ("x-p", "ALTREP"), ("Cn", "a.b-1"))
 SHAPES = ("s", "s|b", "b|s", "s|b|s", "s|b|c|s", "|s", "s|")
 PATHS = ("alone", "line", "component")
+_UNIQ = [0]
 
 
 def strings(alpha, k, kmin=0):
@@ -127,6 +129,31 @@ def run_case(case):
             fails.append(judge(text, obs, want, case, "line"))
             outcome = "line-known" if fails[-1].get("known") else "line-FAIL"
         state = ("line", text, repr(obs))
+    elif path.startswith("vtimezone"):
+        # a property with parameters inside the observance of a VTIMEZONE the provider has never seen: reading the calendar
+        # converts the definition into a time zone object on the side - the parsed tree keeps what the text says
+        _UNIQ[0] += 1
+        tzid = f"Custom/C08-{os.getpid()}-{_UNIQ[0]}"
+        env.use_provider(path.split(":")[1])
+        line = str(Contentline.from_parts("TZNAME", P, vText("XST")))
+        text = "\r\n".join(["BEGIN:VCALENDAR", "BEGIN:VTIMEZONE", f"TZID:{tzid}", "BEGIN:STANDARD", "DTSTART:19701025T030000",
+                             "TZOFFSETFROM:+0200", "TZOFFSETTO:+0100", line, "RRULE:FREQ=YEARLY;BYMONTH=10;BYDAY=-1SU", "END:STANDARD",
+                             "END:VTIMEZONE", "BEGIN:VEVENT", f"DTSTART;TZID={tzid}:20240601T100000", "END:VEVENT", "END:VCALENDAR", ""])
+        want = ("TZNAME", intended, "XST")
+        try:
+            back = Calendar.from_ical(text)
+            std = back.walk("STANDARD")[0]
+            val = std["TZNAME"]
+            obs = ("TZNAME", {k: norm(x) for k, x in val.params.items()}, str(val))
+            off = back.walk("VEVENT")[0]["DTSTART"].dt.utcoffset()
+            if off is None or off.total_seconds() != 3600:
+                fails.append(fail("vtimezone:definition-not-used", case, "+01:00 (the only observance)", repr(off)))
+        except ValueError:
+            obs = ("rejected",)
+        if obs != want:
+            fails.append(judge(line, obs, want, case, "vtimezone"))
+            outcome = "vtimezone-known" if fails[-1].get("known") else "vtimezone-FAIL"
+        state = ("vtimezone", path, line, repr(obs))
     else:
         comp = Event() if case[-1][:1] != "a" else Todo()  # lenient and strict container
         comp.add("x-a", "v", parameters=dict(given))
@@ -202,7 +229,7 @@ def run(ctx):
     k = 3 if ctx.quick else 4
     ctx.rule = (f"E-enum: names {NAMES} (each) and pairs {PAIRS} x every string over a 22-symbol alphabet (incl. NBSP, EM SPACE, U+2028, U+FEFF, a non-BMP character) with |s|<={k} "
                 f"x shapes {SHAPES} x paths {PATHS} (component path: VEVENT and, for values starting with 'a', strict "
-                "VTODO); plus EVERY Unicode scalar value except the double quote and the Cc control characters inside a value (scalar and list, alone / in a line / on a parsed property). non-trivial = the value needs quoting/escaping attention, is a list, or the map has two names.")
+                "VTODO); plus EVERY Unicode scalar value except the double quote and the Cc control characters inside a value (scalar and list, alone / in a line / on a parsed property); parameters on TZNAME inside the observance of a VTIMEZONE with a never-seen TZID (|s|<=2, both providers). non-trivial = the value needs quoting/escaping attention, is a list, or the map has two names.")
     ctx.bounds = {"alphabet": [repr(c) for c in SIGMA], "k": k, "names": list(NAMES), "shapes": list(SHAPES)}
     ctx.assumptions += ["the 'other conforming parser' may or may not apply RFC 6868 caret decoding: both readings are accepted",
                         "values are free of double quotes and control characters (as the statement says)",
@@ -219,6 +246,14 @@ def run(ctx):
                         yield ("two", path, n1, n2, which, s)
 
     ctx.explore("names x values x shapes x paths", gen, run_case)
+
+    def gen_vtz():
+        for s_ in strings(SIGMA, 2):
+            for provider in env.PROVIDERS:
+                for name, shape in (("LANGUAGE", "s"), ("X-P", "s|b"), ("x-p", "b|s")):
+                    yield ("one", f"vtimezone:{provider}", name, shape, s_)
+
+    ctx.explore("parameters inside a custom VTIMEZONE", gen_vtz, run_case)
 
     def gen_all():
         for b in range(0, 0x110000, BLOCK):
